@@ -1434,6 +1434,9 @@ pub fn float_vector_rotate(push_state: &mut PushState, _instruction_cache: &Inst
 pub fn float_vector_sine(push_state: &mut PushState, _instruction_cache: &InstructionCache) {
     if let Some(sine_params) = push_state.float_stack.pop_vec(3) {
         if let Some(vector_size) = push_state.int_stack.pop() {
+            if vector_size < 0 {
+                return;
+            }
             let mut sine_vector = vec![];
             for i in 0..vector_size as usize {
                 sine_vector.push(
